@@ -434,7 +434,7 @@ def correspondence(ctx):
 if __name__ == "__main__":
     common.run_check(
         "C15", module="Bermuda.Properties.C15", driver_targets=["drv_c15"],
-        correspondence=correspondence, level="translation_validation",
+        correspondence=correspondence, level="proof",
         rule="random month-aligned triangles (period length 1/3/6/12 months, lag step 1/3/6/12; shapes complete, "
              "upper-left, ragged, single period, single lag, skipped period; 1-3 slices with equal or independent "
              "layouts; CumulativeCell / Cell / IncrementalCell incl. a broken-chain stream; scalar and array values) "
@@ -453,6 +453,9 @@ if __name__ == "__main__":
                      "backfill iterates period_rows: only the first slice of a period is backfilled (no per-slice "
                      "completeness clause in C15; observation D17 in notes/agents/c15.md)",
                      "eval_resolution >= 1 for backfill (0 or negative loops forever)",
+                     "bridge theorems extensionSpec_model_fill / _backfill: canonical input triangle with canonical "
+                     "metadata and no coordinate occupied twice (SpecDomain); backfill: every cell the loop would create "
+                     "passes the Cell constructor and lies in a month from 1970 on (BackfillOk)",
                      "NaN-free numeric values; one field set per row for incremental input"],
         trusted=["date arithmetic add_months / dev_lag_months as modelled in Model/DateUtils.lean (property C12)",
                  "to_cumulative / to_incremental as modelled in Model/Basis.lean (property C04)"],
